@@ -67,12 +67,21 @@ def power_lattice(rng, tier):
                 c['total_power'] = tp
             if sf is not None:
                 c['power_scaling_factor'] = sf
+            if (sf is not None and sf < 1e-6) or (tp is not None
+                                                  and 0 < tp < 1.0):
+                c['_power_scale'] = True
         return f
     one('p-normalised', bundle_type(2), ncell=2, post=norm(tp=3.3e5))
     one('p-scaled', bundle_type(2), ncell=2, post=norm(sf=0.5))
     one('p-norm-and-scaled', bundle_type(2), ncell=2,
         post=norm(tp=2.5e5, sf=1.75))
     one('p-norm-zero', bundle_type(2), ncell=2, post=norm(tp=0.0))
+    # very small absolute powers: delivery is linear in the scale, nothing
+    # is dropped below some absolute W/m (seed C03-14)
+    one('p-scaled-tiny', bundle_type(2), ncell=2, post=norm(sf=1e-10))
+    one('p-scaled-tinier', bundle_type(2), ncell=3, power_order=2,
+        post=norm(sf=3e-13))
+    one('p-norm-tiny', bundle_type(2), ncell=2, post=norm(tp=2.5e-6))
     for name, dz in (('p-dz-coarse', 0.009), ('p-dz-odd', 0.00371),
                      ('p-dz-fine', 0.0011)):
         one(name, bundle_type(2), ncell=3, power_order=2,
